@@ -94,7 +94,8 @@ def run_shard(args):
     out["status"] = status
     out["wall_s"] = time.time() - t0
     with open(args.out, "w") as fd:
-        json.dump(out, fd)
+        # (a monitor that put a live object into a case must not cost the shard its verdicts: such an object is written as its repr)
+        json.dump(out, fd, default=lambda o: "<unserializable %s>" % repr(o)[:200])
 
 
 def repo_tests_workload(core):
